@@ -119,23 +119,24 @@ theorem div_of_index (w x y : Nat) (hx : x < w) : (y * w + x) / w = y := by
   have hw : 0 < w := by omega
   rw [Nat.add_comm, Nat.add_mul_div_right _ _ hw, Nat.div_eq_of_lt hx, Nat.zero_add]
 
-theorem blockCells_length (cell : C16 → C16 → BCell) (img : Img) :
-    (blockCells cell img).length = blockHeight img.h * img.w := by
-  simp [blockCells]
+theorem blockCellsWith_length (mode : Bottom) (cell : C16 → C16 → BCell) (img : Img) :
+    (blockCellsWith mode cell img).length = blockHeight img.h * img.w := by
+  simp [blockCellsWith]
 
-theorem blockCells_get (cell : C16 → C16 → BCell) (img : Img) (x y : Nat) (hx : x < img.w) (hy : y < blockHeight img.h) :
-    (blockCells cell img)[y * img.w + x]? = some (x, y, cell (img.at x (2 * y)) (img.at x (2 * y + 1))) := by
+theorem blockCellsWith_get (mode : Bottom) (cell : C16 → C16 → BCell) (img : Img) (x y : Nat) (hx : x < img.w) (hy : y < blockHeight img.h) :
+    (blockCellsWith mode cell img)[y * img.w + x]? = some (x, y, cell (img.at x (2 * y)) (lowerPx mode img x (2 * y))) := by
   have hi : y * img.w + x < blockHeight img.h * img.w := by
     calc y * img.w + x < y * img.w + img.w := by omega
       _ = (y + 1) * img.w := by rw [Nat.add_mul, Nat.one_mul]
       _ ≤ blockHeight img.h * img.w := Nat.mul_le_mul_right _ hy
-  simp only [blockCells, List.getElem?_map, List.getElem?_range hi, Option.map_some, div_of_index img.w x y hx]
+  simp only [blockCellsWith, List.getElem?_map, List.getElem?_range hi, Option.map_some, div_of_index img.w x y hx]
   simp
 
-theorem blockCells_mem (cell : C16 → C16 → BCell) (img : Img) (e : Nat × Nat × BCell) (he : e ∈ blockCells cell img) :
-    e.1 < img.w ∧ e.2.1 < blockHeight img.h ∧ e.2.2 = cell (img.at e.1 (2 * e.2.1)) (img.at e.1 (2 * e.2.1 + 1)) ∧
-    (blockCells cell img)[e.2.1 * img.w + e.1]? = some e := by
-  simp only [blockCells, List.mem_map, List.mem_range] at he
+theorem blockCellsWith_mem (mode : Bottom) (cell : C16 → C16 → BCell) (img : Img) (e : Nat × Nat × BCell)
+    (he : e ∈ blockCellsWith mode cell img) :
+    e.1 < img.w ∧ e.2.1 < blockHeight img.h ∧ e.2.2 = cell (img.at e.1 (2 * e.2.1)) (lowerPx mode img e.1 (2 * e.2.1)) ∧
+    (blockCellsWith mode cell img)[e.2.1 * img.w + e.1]? = some e := by
+  simp only [blockCellsWith, List.mem_map, List.mem_range] at he
   obtain ⟨i, hi, rfl⟩ := he
   have hw : 0 < img.w := by
     rcases Nat.eq_zero_or_pos img.w with h | h
@@ -149,8 +150,20 @@ theorem blockCells_mem (cell : C16 → C16 → BCell) (img : Img) (e : Nat × Na
   have hxl : i % img.w < img.w := Nat.mod_lt _ hw
   refine ⟨by simp only [hx]; exact hxl, hy, rfl, ?_⟩
   simp only [hx]
-  have := blockCells_get cell img (i % img.w) (i / img.w) hxl hy
+  have := blockCellsWith_get mode cell img (i % img.w) (i / img.w) hxl hy
   rw [this]
+
+theorem blockCells_length (cell : C16 → C16 → BCell) (img : Img) :
+    (blockCells cell img).length = blockHeight img.h * img.w := blockCellsWith_length .read cell img
+
+theorem blockCells_get (cell : C16 → C16 → BCell) (img : Img) (x y : Nat) (hx : x < img.w) (hy : y < blockHeight img.h) :
+    (blockCells cell img)[y * img.w + x]? = some (x, y, cell (img.at x (2 * y)) (img.at x (2 * y + 1))) :=
+  blockCellsWith_get .read cell img x y hx hy
+
+theorem blockCells_mem (cell : C16 → C16 → BCell) (img : Img) (e : Nat × Nat × BCell) (he : e ∈ blockCells cell img) :
+    e.1 < img.w ∧ e.2.1 < blockHeight img.h ∧ e.2.2 = cell (img.at e.1 (2 * e.2.1)) (img.at e.1 (2 * e.2.1 + 1)) ∧
+    (blockCells cell img)[e.2.1 * img.w + e.1]? = some e :=
+  blockCellsWith_mem .read cell img e he
 
 theorem blockHeight_rows (ph y : Nat) (hy : y < blockHeight ph) :
     2 * y < ph ∧ (2 * y + 1 < ph ∨ (ph % 2 = 1 ∧ y + 1 = blockHeight ph)) := by
